@@ -18,7 +18,11 @@ import (
 	"time"
 
 	"github.com/fiorix/go-diameter/diam"
+	"github.com/fiorix/go-diameter/diam/datatype"
 	"github.com/fiorix/go-diameter/diam/dict"
+
+	charging_code "github.com/free5gc/chf/ccs_diameter/code"
+	cd "github.com/free5gc/chf/ccs_diameter/datatype"
 
 	chf_context "github.com/free5gc/chf/internal/context"
 	"github.com/free5gc/chf/internal/sbi"
@@ -63,6 +67,7 @@ func runFree(cfg WorldCfg, body func(w *World)) {
 	chf_context.Init()
 	self := chf_context.GetSelf()
 	reflect.ValueOf(self).Elem().FieldByName("LocalRecordSequenceNumber").SetUint(cfg.LocalSeq) // (by reflection: the harness must build whatever the counter's width)
+	cgfSetup(cfg)
 	var wg sync.WaitGroup
 	wg.Add(2)
 	rf.OpenServer(ctx, &wg)
@@ -163,6 +168,9 @@ func parseRaceReports(log string) (sigs []string, full []string) {
 func raceJob(t *testing.T, raw json.RawMessage) (any, error) {
 	var a raceArgs
 	json.Unmarshal(raw, &a)
+	if strings.HasPrefix(a.Scen, "peers/") {
+		return racePeersJob(a)
+	}
 	var sc *concScenario
 	for _, s := range concScenarios() {
 		if s.Name == a.Scen {
@@ -179,7 +187,7 @@ func raceJob(t *testing.T, raw json.RawMessage) (any, error) {
 	}
 	out := raceOut{}
 	for it := 0; it < a.Iters; it++ {
-		runFree(WorldCfg{Accounts: sc.Accounts, LocalSeq: sc.LocalSeq}, func(w *World) {
+		runFree(WorldCfg{Accounts: sc.Accounts, LocalSeq: sc.LocalSeq, Cgf: sc.Cgf}, func(w *World) {
 			h := w.ExecOps(supis, sc.Pre, len(sc.Pre), false)
 			nPre := len(h.Sess)
 			var wg sync.WaitGroup
@@ -210,7 +218,12 @@ func raceJob(t *testing.T, raw json.RawMessage) (any, error) {
 		})
 		out.Runs++
 	}
-	// collect the detector's reports written so far by this process
+	collectRaceReports(a.Scen, &out)
+	return out, nil
+}
+
+// collectRaceReports reads the detector's reports written so far by this process.
+func collectRaceReports(scen string, out *raceOut) {
 	files, _ := filepath.Glob(os.Getenv("VRACE_LOG") + ".*")
 	seen := map[string]bool{}
 	for _, f := range files {
@@ -220,17 +233,105 @@ func raceJob(t *testing.T, raw json.RawMessage) (any, error) {
 		for i, sg := range sigs {
 			if !seen[sg] {
 				seen[sg] = true
-				out.Finds = append(out.Finds, Finding{"data-race/" + sg, fmt.Sprintf("scenario %s: %s", a.Scen, full[i])})
+				out.Finds = append(out.Finds, Finding{"data-race/" + sg, fmt.Sprintf("scenario %s: %s", scen, full[i])})
 			}
 		}
 	}
+}
+
+// racePeersJob: several Diameter peers, each on its own connection, have requests in flight at the rating server
+// (peers/rf) or the account-balance server (peers/abmf) at the same time; free-running, under the race detector.
+func racePeersJob(a raceArgs) (any, error) {
+	out := raceOut{}
+	var mu sync.Mutex
+	fail := func(s string) { mu.Lock(); out.Failed = append(out.Failed, s); mu.Unlock() }
+	accounts := []Account{{"imsi-208930000000001", 1, "1000", "3"}, {"imsi-208930000000002", 1, "1000", "0"}, {"imsi-208930000000003", 1, "1000", "abc"},
+		{"imsi-208930000000004", 1, "1000", "7"}, {"imsi-208930000000002", 2, "500", ""}}
+	for it := 0; it < a.Iters; it++ {
+		runFree(WorldCfg{Accounts: accounts}, func(w *World) {
+			var wg sync.WaitGroup
+			start := make(chan struct{})
+			const peers = 4
+			for k := 0; k < peers; k++ {
+				k := k
+				wg.Add(1)
+				go func() {
+					defer wg.Done()
+					defer func() {
+						if r := recover(); r != nil {
+							fail(fmt.Sprint(r))
+						}
+					}()
+					addr, ans := "127.0.0.1:3868", "SUA"
+					if a.Scen == "peers/abmf" {
+						addr, ans = "127.0.0.1:3869", "CCA"
+					}
+					cli, err := dialPeer(addr, ans)
+					if err != nil {
+						fail("dial: " + err.Error())
+						return
+					}
+					defer cli.conn.Close()
+					<-start
+					for n := 0; n < 3; n++ {
+						imsi := fmt.Sprintf("20893000000000%d", 1+(k+n)%4)
+						var cmd uint32
+						var req any
+						if a.Scen == "peers/abmf" {
+							cmd = charging_code.ABMF_CreditControl
+							req = &cd.AccountDebitRequest{SessionId: datatype.UTF8String(fmt.Sprintf("s-%d-%d", k, n)), OriginHost: "verif-client", OriginRealm: "go-diameter",
+								RequestedAction: cd.RequestedAction(n % 2), CcRequestType: cd.CcRequestType(2), CcRequestNumber: datatype.Unsigned32(n),
+								EventTimestamp: datatype.Time(time.Now()),
+								SubscriptionId: &cd.SubscriptionId{SubscriptionIdType: cd.END_USER_IMSI, SubscriptionIdData: datatype.UTF8String(imsi)},
+								MultipleServicesCreditControl: &cd.MultipleServicesCreditControl{RatingGroup: 1,
+									RequestedServiceUnit: &cd.RequestedServiceUnit{CCTotalOctets: 10}, UsedServiceUnit: &cd.UsedServiceUnit{CCTotalOctets: 10}}}
+						} else {
+							cmd = charging_code.ServiceUsageMessage
+							sub := []cd.RequestSubType{cd.REQ_SUBTYPE_RESERVE, cd.REQ_SUBTYPE_DEBIT, cd.REQ_SUBTYPE_RESERVE}[n]
+							r := &cd.ServiceUsageRequest{SessionId: datatype.UTF8String(fmt.Sprintf("rate-%d-%d", k, n)), OriginHost: "verif-client", OriginRealm: "go-diameter", DestinationRealm: "go-diameter", DestinationHost: "server",
+								UserName: datatype.OctetString("CHF"), ActualTime: datatype.Time(time.Now()),
+								SubscriptionId: &cd.SubscriptionId{SubscriptionIdType: cd.END_USER_IMSI, SubscriptionIdData: datatype.UTF8String(imsi)},
+								ServiceRating:  &cd.ServiceRating{ServiceIdentifier: 1, RequestSubType: sub}}
+							srv := reflect.ValueOf(r.ServiceRating).Elem()
+							srv.FieldByName("ConsumedUnits").SetUint(5)
+							srv.FieldByName("MonetaryQuota").SetUint(100)
+							req = r
+						}
+						msg := diam.NewRequest(cmd, charging_code.Re_interface, dict.Default)
+						if err := msg.Marshal(req); err != nil {
+							fail("marshal: " + err.Error())
+							return
+						}
+						if _, err := msg.WriteTo(cli.conn); err != nil {
+							return // (the server closed the connection)
+						}
+						select {
+						case <-cli.answers:
+						case <-time.After(2 * time.Second):
+						}
+					}
+				}()
+			}
+			time.Sleep(2 * time.Millisecond)
+			close(start)
+			done := make(chan struct{})
+			go func() { wg.Wait(); close(done) }()
+			select {
+			case <-done:
+			case <-time.After(60 * time.Second):
+				fail("peers did not complete within 60 s of real time (not a verdict)")
+			}
+		})
+		out.Runs++
+	}
+	collectRaceReports(a.Scen, &out)
 	return out, nil
 }
 
 func init() { jobHandlers["race"] = raceJob }
 
 // racePass runs every concurrent scenario free-running under the race detector.
-func racePass(rep *Report) map[string]any {
+func racePass(rep *Report, scens ...string) map[string]any {
 	exe := os.Getenv("VRACE_BIN")
 	if _, err := os.Stat(exe); err != nil {
 		rep.EngineError("race pass: no -race build available (" + exe + ")")
@@ -252,9 +353,14 @@ func racePass(rep *Report) map[string]any {
 	}
 	var jobs []Job
 	var names []string
-	for _, sc := range concScenarios() {
-		jobs = append(jobs, Job{Kind: "race", Args: mustJSON(raceArgs{Scen: sc.Name, Iters: iters})})
-		names = append(names, sc.Name)
+	if len(scens) == 0 {
+		for _, sc := range concScenarios() {
+			scens = append(scens, sc.Name)
+		}
+	}
+	for _, sc := range scens {
+		jobs = append(jobs, Job{Kind: "race", Args: mustJSON(raceArgs{Scen: sc, Iters: iters})})
+		names = append(names, sc)
 	}
 	runs := 0
 	sigs := map[string]bool{}
